@@ -13,7 +13,7 @@ Supported
                function (e.g. `self._process_drift = ...` in an __init__) is the translated result: earlier local
                assignments become lets, attribute stores and `super().__init__(...)` are skipped (so is a local
                bound to an untranslatable value, e.g. an object construction); reading a skipped attribute or
-               local later in the same body is refused.
+               local later in the same body is refused; a guard `if cond: raise ...` before the assignment yields "on_raise".
   expressions: int / float literals (floats exact via Fraction(repr)), names, + - * / // % **
                (literal natural exponent), unary -, not, and/or, comparisons (also chained; `x in [..]` /
                `x not in [..]` against a literal list or tuple),
@@ -77,6 +77,7 @@ class Ctx:
         self.int_names = set(fn.get("int_names", []))
         self.rename = fn.get("rename", {})
         self.stored_attrs = set()                 # attributes stored earlier in an "assign_target" body
+        self.on_raise_value = fn.get("on_raise")  # assign_target mode: value of a leading `if cond: raise` guard
         # --- opt-in extensions (C18/C20), all fail-closed -------------------------------------
         self.attrs = dict(self.attrs)
         self.attr_assign = bool(fn.get("attr_tail"))     # `self.x = e` becomes `let self_x := e`
@@ -569,6 +570,10 @@ def assign_target_block(ctx: Ctx, stmts, target: str) -> str:
         return assign_target_block(ctx, rest, target)
     if isinstance(s, ast.Expr) and isinstance(s.value, ast.Call) and src(s.value.func) == "super().__init__":
         return assign_target_block(ctx, rest, target)
+    if (isinstance(s, ast.If) and not s.orelse and len(s.body) == 1 and isinstance(s.body[0], ast.Raise)
+            and ctx.on_raise_value is not None):
+        # a validation guard `if cond: raise ...` before the assignment: the declared error value
+        return f"(if {bexpr(ctx, s.test)}\n   then {ctx.on_raise_value}\n   else {assign_target_block(ctx, rest, target)})"
     if isinstance(s, ast.Assign) and len(s.targets) == 1:
         t = s.targets[0]
         if src(t) == target:
